@@ -136,6 +136,25 @@ class Gen:
             f.nested_xmlns = r.random() < self.cfg["nested_xmlns"]
             if f.nested_xmlns:
                 self.features.add("nested-xmlns")
+        self.clash_prefixes()
+
+    def clash_prefixes(self):
+        """Prefix reuse across files, on purpose: a file that declares its foreign prefixes on nested elements calls one imported
+        namespace by the very prefix that *another* imported file uses for itself. Prefix bindings are per file and per element:
+        the importer's nested declaration decides."""
+        r = self.r
+        for a in self.files:
+            if not a.nested_xmlns or r.random() >= self.cfg.get("p_prefix_clash", 0.0):
+                continue
+            imps = [j for j in dict.fromkeys(a.imports) if j != a.idx and j in a.prefixes]
+            if len(imps) < 2:
+                continue
+            b, c = r.sample(imps, 2)
+            pb = self.files[b].prefixes.get(b)
+            if not pb or pb == a.xs_prefix or pb in a.prefixes.values():
+                continue
+            a.prefixes[c] = pb
+            self.features.add("prefix-of-one-import-rebound-to-another")
 
     def visible(self, fidx):
         """Files whose components file fidx may refer to."""
@@ -385,7 +404,7 @@ class Gen:
 
     def make_gelement(self, fidx, taken_elems):
         r = self.r
-        if self.cfg["reuse_names"] and r.random() < 0.3 and fidx not in self.tns_only:
+        if r.random() < (0.3 if self.cfg["reuse_names"] else self.cfg.get("p_element_like_type", 0.25)) and fidx not in self.tns_only:
             # the benign idiom <element name="Foo" type="tns:Foo"/>
             free = [c for c in self.files[fidx].components if c.kind == "complex"
                     and not any(g.kind == "gelement" and g.name.xml == c.name.xml for g in self.files[fidx].components)]
@@ -636,7 +655,14 @@ class Gen:
         # make sure there are enough anonymous/typed global elements to serve as body/header elements
         taken_e = {c.name.pascal for c in f0.components}
         names = Names(r, cfg["keyword_rate"], cfg["styles"], cfg.get("max_words", 3), cfg.get("name_pool"))
-        w = Wsdl(f0.uri, names.fresh(set(), set(), style="pascal", allow_keyword=False), names.fresh(set()), names.fresh(set()),
+        wuri = f0.uri
+        import random as _random
+        if _random.Random("wsdl-ns:" + "|".join(c.name.xml for c in f0.components)).random() < self.cfg.get("p_wsdl_own_ns", 0.4):
+            # the definitions element has a target namespace of its own (messages, port types and bindings live there), the
+            # inline schema another one
+            wuri = f0.uri.rstrip("/") + "/wsdl"
+            self.features.add("wsdl-namespace-differs-from-inline-schema")
+        w = Wsdl(wuri, names.fresh(set(), set(), style="pascal", allow_keyword=False), names.fresh(set()), names.fresh(set()),
                  names.fresh(set()))
         f0.filename = w.filename
         ss.start = w.filename
